@@ -697,7 +697,22 @@ class Gen:
                 items = [r.choice([b"\x01", b""]) for _ in range(n)]
             fl = close_flags(F["TAPROOT"] | F["WITNESS"] | F["P2SH"] | (self.flags() & ~F["DISCOURAGE_UPGRADABLE_PUBKEYTYPE"]))
             note["n"] = n
-            return self.tap_script_spend(script, items, lv, r.choice([0, 1]), annex, flags=fl, tag="tap:budget", note=note)
+            depth = r.choice([0, 1])
+            # aim the budget (50 + serialized witness size - 50 per non-empty signature) at -1, 0 or +1 with the annex length
+            target = r.choice([-1, 0, 0, 1, None])
+            if target is not None:
+                charged = n if form != 2 else sum(1 for x in items if x)
+
+                def wsize(annex_len):
+                    els = [len(x) for x in items] + [len(script), 33 + 32 * depth] + ([annex_len] if annex_len else [])
+                    cs = lambda v: 1 if v < 253 else 3 if v < 65536 else 5  # noqa: E731
+                    return cs(len(els)) + sum(cs(e) + e for e in els)
+                for L in [0] + list(range(1, 400)):
+                    if 50 + wsize(L) - 50 * charged == target:
+                        annex = (b"\x50" + bytes(L - 1)) if L else None
+                        note["budget_end"] = target
+                        break
+            return self.tap_script_spend(script, items, lv, depth, annex, flags=fl, tag="tap:budget", note=note)
         if mode == "leafver":
             lv = r.choice([0xC2, 0x50, 0xFE, 0x00, 0xC4, 0x66])
             return self.tap_script_spend(self.script(r.randrange(1, 5), TAPOPS), self.items(r.randrange(0, 3)), lv, depth, annex,
